@@ -740,12 +740,23 @@ static void emplace_uint32(uint8_t *buffer, uint32_t d)
 size_t rtosc_bundle(char *buffer, size_t len, uint64_t tt, int elms, ...)
 {
     char *_buffer = buffer;
+    va_list va;
+
+    //Abort if the bundle cannot fit (same contract as rtosc_amessage)
+    size_t total_len = 8+8;
+    va_start(va, elms);
+    for(int i=0; i<elms; ++i)
+        total_len += 4+rtosc_message_length(va_arg(va, const char*), -1);
+    va_end(va);
+
     memset(buffer, 0, len);
+    if(total_len>len)
+        return 0;
+
     strcpy(buffer, "#bundle");
     buffer += 8;
     emplace_uint64((uint8_t*)buffer, tt);
     buffer += 8;
-    va_list va;
     va_start(va, elms);
     for(int i=0; i<elms; ++i) {
         const char   *msg  = va_arg(va, const char*);
